@@ -410,7 +410,9 @@ def run(tier: str, seed: int, replay: str | None = None) -> int:
     rep = Report(PROP, tier, seed)
     from translate import c01 as tr
 
-    lean = lean_prove(PROP, translate=tr.translate, thorough=(tier == "thorough"))
+    from translate import c01_typespec as tr2
+
+    lean = lean_prove(PROP, translate=lambda: (tr.translate(), tr2.translate()), thorough=(tier == "thorough"))
     for b in lean.broken():
         rep.tie_broken("proof: " + b)
     ford = common.import_ford()
